@@ -141,6 +141,15 @@ def check_case(case, evs, probe):
             if fired:
                 viol.append((f"{name}:evaluated-before-rejection:{main_kind(offending) if offending else detail}",
                              f"{name} evaluator rejected {src!r} but part of it had already run: {fired[:5]}", rp))
+            # the verdict does not depend on history: the same text submitted again to the same evaluator object is
+            # rejected again, still without running anything (a cache must not remember the parse and skip the check)
+            probe.reset()
+            outcome2, detail2 = run_one(ev, errcls, src, probe.vars)
+            st["runs"] += 1
+            if outcome2 != "rejected" or probe.fired():
+                viol.append((f"{name}:accepted-on-resubmission:{main_kind(offending) if offending else detail}",
+                             f"{name} evaluator rejected {src!r} the first time but on a second submission of the same "
+                             f"text: {outcome2} ({detail2}; canaries {probe.fired()[:4]})", rp))
         else:
             if not allowed:
                 viol.append((f"{name}:accepted-disallowed:{main_kind(offending)}",
